@@ -138,6 +138,61 @@ macro_rules! zst_cells {
 }
 
 /// Slice-level matrix on one container.
+/// Zero-count transfers against every in-memory stream kind, including sources with nothing left
+/// and sinks with no room: a transfer of zero bytes needs neither.
+macro_rules! stream_kinds {
+    ($t:expr, $a:expr, $judged:expr, $p:expr, $frame:expr, $dirty:expr) => {{
+        let data = [5u8, 6, 7];
+        let empty: [u8; 0] = [];
+        // sources
+        cell(&$p("read_volatile_from-0/empty-slice"), $judged, $frame, $dirty, || okz($t.read_volatile_from($a, &mut &empty[..], 0)));
+        cell(&$p("read_exact_volatile_from-0/empty-slice"), $judged, $frame, $dirty, || oku($t.read_exact_volatile_from($a, &mut &empty[..], 0)));
+        for pos in [0u64, 3, 4, u64::MAX] {
+            let pc = match pos { 0 => "start", 3 => "end", 4 => "past-end", _ => "max" };
+            cell(&$p(&format!("read_volatile_from-0/cursor-{}", pc)), $judged, $frame, $dirty, || {
+                let mut c = Cursor::new(&data[..]);
+                c.set_position(pos);
+                okz($t.read_volatile_from($a, &mut c, 0)).and_then(|()| if c.position() == pos { Ok(()) } else { Err(format!("cursor moved to {}", c.position())) })
+            });
+            cell(&$p(&format!("read_exact_volatile_from-0/cursor-{}", pc)), $judged, $frame, $dirty, || {
+                let mut c = Cursor::new(&data[..]);
+                c.set_position(pos);
+                oku($t.read_exact_volatile_from($a, &mut c, 0)).and_then(|()| if c.position() == pos { Ok(()) } else { Err(format!("cursor moved to {}", c.position())) })
+            });
+        }
+        // sinks
+        cell(&$p("write_volatile_to-0/empty-mut-slice"), $judged, $frame, $dirty, || {
+            let mut b: [u8; 0] = [];
+            okz($t.write_volatile_to($a, &mut &mut b[..], 0))
+        });
+        cell(&$p("write_all_volatile_to-0/empty-mut-slice"), $judged, $frame, $dirty, || {
+            let mut b: [u8; 0] = [];
+            oku($t.write_all_volatile_to($a, &mut &mut b[..], 0))
+        });
+        cell(&$p("write_all_volatile_to-0/mut-slice"), $judged, $frame, $dirty, || {
+            let mut b = [0xeeu8; 2];
+            oku($t.write_all_volatile_to($a, &mut &mut b[..], 0)).and_then(|()| if b == [0xee; 2] { Ok(()) } else { Err("sink received bytes".into()) })
+        });
+        for pos in [0u64, 2, 3, u64::MAX] {
+            let pc = match pos { 0 => "start", 2 => "end", 3 => "past-end", _ => "max" };
+            cell(&$p(&format!("write_volatile_to-0/cursor-mut-slice-{}", pc)), $judged, $frame, $dirty, || {
+                let mut b = [0xeeu8; 2];
+                let mut c = Cursor::new(&mut b[..]);
+                c.set_position(pos);
+                okz($t.write_volatile_to($a, &mut c, 0)).and_then(|()| if c.position() == pos { Ok(()) } else { Err(format!("cursor moved to {}", c.position())) })
+            });
+            cell(&$p(&format!("write_all_volatile_to-0/cursor-mut-slice-{}", pc)), $judged, $frame, $dirty, || {
+                let mut b = [0xeeu8; 2];
+                let mut c = Cursor::new(&mut b[..]);
+                c.set_position(pos);
+                let res = oku($t.write_all_volatile_to($a, &mut c, 0));
+                let moved = c.position() != pos;
+                res.and_then(|()| if !moved && b == [0xee; 2] { Ok(()) } else { Err("cursor moved or sink received bytes".into()) })
+            });
+        }
+    }};
+}
+
 fn slice_matrix<B: vm_memory::bitmap::BitmapSlice>(s: &VolatileSlice<B>, cname: &str, frame: &Frame, dirty: &dyn Fn() -> usize) {
     let len = s.len();
     let offs: Vec<(usize, &str, bool)> = vec![
@@ -174,6 +229,7 @@ fn slice_matrix<B: vm_memory::bitmap::BitmapSlice>(s: &VolatileSlice<B>, cname: 
             let mut v: Vec<u8> = vec![];
             oku(s.write_all_volatile_to(off, &mut v, 0))
         });
+        stream_kinds!(s, off, valid_nonempty, p, frame, dirty);
         if !cfg!(miri) && valid_nonempty {
             cell(&p("read_volatile_from-0-file"), true, frame, dirty, || {
                 let mut f = std::fs::File::open("/dev/zero").unwrap();
@@ -292,6 +348,7 @@ fn region_matrix<R: GuestMemoryRegion>(reg: &R, lname: &str, frame: &Frame, dirt
             let mut v: Vec<u8> = vec![];
             oku(reg.write_all_volatile_to(a, &mut v, 0))
         });
+        stream_kinds!(reg, a, valid, p, frame, dirty);
     }
 }
 
@@ -339,6 +396,7 @@ fn guest_matrix<M: GuestMemory>(mem: &M, lay: &Layout, lname: &str, frame: &Fram
             let mut v: Vec<u8> = vec![];
             oku(mem.write_all_volatile_to(ga, &mut v, 0))
         });
+        stream_kinds!(mem, ga, valid, p, frame, dirty);
     }
 }
 
